@@ -173,29 +173,13 @@ def fix_f22():
 
 # F20 (design_span_loss counted att_in twice) and F21 (automatic VOA above the head-room) were repaired in /repo
 # (13a35c31, 99151283): their streams ('att_in', 'voa_margin') stay as regression streams without a matcher.
-@contextlib.contextmanager
-def fix_f24():
-    """Multiband_amplifier.to_json also exports in_voa of every band amplifier (as Edfa.to_json does)"""
-    from gnpy.core import elements as E
-    orig = E.Multiband_amplifier.to_json
-
-    def to_json(self):
-        j = orig.fget(self)
-        for sa, a in zip(j['amplifiers'], self.amplifiers.values()):
-            sa['operational']['in_voa'] = a.in_voa
-        return j
-    E.Multiband_amplifier.to_json = property(to_json)
-    try:
-        yield
-    finally:
-        E.Multiband_amplifier.to_json = orig
-
-
 # F8 (single design band dropped) and F19 (lumped losses not exported) were repaired too (37844749, 562b868b):
 # the 'lumped' stream and the multiband example stay as regressions that must pass.
 # F15 / F23 (Raman estimate without span power: TypeError, then cached at the wrong power) were repaired as well
 # (36fd5b85, d3e2700d).
-FIX_CTX = {'F22': fix_f22, 'F24': fix_f24}
+# F24 (Multiband_amplifier.to_json dropped in_voa of its band amplifiers) was repaired too (71cdcae5): the generated
+# multiband stream with in_voa on band amplifiers stays as a regression without matcher.
+FIX_CTX = {'F22': fix_f22}
 
 
 # ------------------------------------------------------------------ driving the implementation
@@ -651,9 +635,6 @@ def mk_matcher(cause):
 MATCHERS = {
     'F7-eol-readded': mk_matcher('F7'),
     'F22-raman-estimate-ignores-out-voa': mk_matcher('F22'),
-    'F24-multiband-to-json-drops-in-voa': lambda v: (v['key'] in ('redesign_drift', 'export_unfaithful')
-                                                     and v.get('detail', {}).get('cause') == 'F24'
-                                                     and v.get('detail', {}).get('vanishes_with_fix') is True),
 }
 
 
@@ -955,15 +936,7 @@ def run_multiband_case(ctx, case):
     d = drift_of(res)
     if not res['unfaithful'] and not d:
         return
-    # counterfactual: the same case with the proposed repair of F24 (in_voa of band amplifiers exported)
-    set_simparams(sp)
-    try:
-        res24 = roundtrip(case, fixes=('F24',))
-    finally:
-        set_simparams(None)
-    cured = 'exc' not in res24 and not res24['unfaithful'] and not drift_of(res24)
-    only_in_voa = all('[band' in x and ' in_voa:' in x for x in res['unfaithful'])
-    det = {'cause': 'F24' if cured and only_in_voa else None, 'vanishes_with_fix': bool(cured and only_in_voa)}
+    det = {'cause': None, 'vanishes_with_fix': False}
     for x in res['unfaithful'][:1]:
         ctx.violation('export_unfaithful', f'{len(res["unfaithful"])} saved values differ from the designed network: {x}', sc,
                       detail=det)
